@@ -1,6 +1,7 @@
 package c10
 
 import (
+	"os"
 	"encoding/json"
 	"fmt"
 	"math"
@@ -100,6 +101,14 @@ func judge(sc *scen.Scenario, res *scen.Result, runErr error) (string, map[strin
 			l.id, l.seq, l.ok, l.ack = ev.MsgID, ev.SeqNo, true, isAck
 		}
 	}
+	// a point of the history at which the server waited for its acknowledgements: with the client at rest (receive loop
+	// idle in two inspections) nothing more was going to be written, so what was missing then was not acknowledged - even
+	// if the ids ride along with the acknowledgement of the server's next message later on
+	for _, n := range res.Notes {
+		if strings.HasPrefix(n, "unacked:") && (strings.HasSuffix(n, "state=IDLE") || strings.HasSuffix(n, "state=STALL")) {
+			return "violation", feats, fmt.Errorf("the server waited for acknowledgements and the client, at rest, sent none: %s (content-related messages are acknowledged when they are received, not when the server next speaks)", n)
+		}
+	}
 	// every content-related server message, alone or inside a container, must be acknowledged
 	for _, ev := range res.Events {
 		if ev.Kind == "sent" && ev.SeqNo&1 == 1 && ev.Note != "raw" {
@@ -134,6 +143,26 @@ func gen(t *rapid.T) (*scen.Scenario, []string) {
 	callers := scen.Callers(s, ncallers, 3, 1+rapid.IntRange(0, 1000).Draw(t, "base"))
 	var steps []scen.Step
 	var cls []string
+	if rapid.IntRange(0, 4).Draw(t, "push-while-sending") == 0 {
+		// a content-related message reaches the client while one of its senders is in the middle of the send path (a big
+		// upload on a slow line), and nothing content-related follows for a while: the acknowledgement is due all the same,
+		// before the server has said anything else
+		a := callers[0].Reqs[0]
+		h := &scen.HoldSpec{Point: rapid.SampledFrom([]string{"send.msgid", "send.written"}).Draw(t, "holdpoint"), Tag: a.Tag, Manual: true, Ms: 400}
+		p := scen.PushSpec{Kind: rapid.SampledFrom([]string{"update", "updates-too-long"}).Draw(t, "pushkind"), ContentRelated: true, Arg: int64(rapid.IntRange(1, 1<<30).Draw(t, "arg")) << 2,
+			InContainer: rapid.Bool().Draw(t, "pushcont")}
+		steps = append(steps, scen.Step{Op: "probe"}, scen.Step{Op: "await-acks"},
+			scen.Step{Op: "hold", Hold: h}, scen.Step{Op: "call", Calls: []scen.CallSpec{{Caller: 0, Reqs: []scen.ReqSpec{a}}}}, scen.Step{Op: "sleep", Ms: 30},
+			scen.Step{Op: "push", Push: &p}, scen.Step{Op: "sleep", Ms: 30}, scen.Step{Op: "release", Hold: h},
+			scen.Step{Op: "await-requests", N: 1}, scen.Step{Op: "await-acks"},
+			scen.Step{Op: "answer", Items: []scen.AnsItem{{Tag: a.Tag}}}, scen.Step{Op: "await-calls"}, scen.Step{Op: "probe"}, scen.Step{Op: "await-acks"})
+		sc.RPC.Steps = steps
+		sc.GoMaxProcs = rapid.SampledFrom([]int{1, 2, 16}).Draw(t, "gomaxprocs")
+		if sc.ServerClockOffset > 0 {
+			cls = append(cls, "server-clock-after-2038")
+		}
+		return sc, append(cls, "directed:content-related-message-while-a-sender-is-in-the-send-path", "server-history:content-related-push")
+	}
 	if ncallers >= 2 && rapid.IntRange(0, 2).Draw(t, "hold") > 0 {
 		// directed inversion attempt: hold A right after it took its msg_id until B's message has reached the server
 		a, b := callers[0].Reqs[0].Tag, callers[1].Reqs[0].Tag
@@ -223,6 +252,22 @@ func evaluate(sc *scen.Scenario, cls []string) error {
 	verdict, feats, err := judge(sc, res, runErr)
 	for f := range feats {
 		cls = append(cls, "feat:"+f)
+	}
+	if verdict == "inconclusive" && err != nil {
+		// what kept the case from being judged, by kind (a generator or harness whose cases are mostly inconclusive shows here)
+		why := err.Error()
+		if i := strings.IndexAny(why, "0123456789{"); i > 0 {
+			why = why[:i]
+		}
+		cls = append(cls, "inconclusive:"+strings.TrimSpace(why))
+	}
+	if d := os.Getenv("VERIF_DEBUG_DUMP"); d != "" && res != nil {
+		for _, c := range cls {
+			if strings.HasPrefix(c, "directed:content") {
+				jb, _ := json.MarshalIndent(map[string]any{"scenario": sc, "result": res}, "", " ")
+				os.WriteFile(fmt.Sprintf("%s/c10-%d.json", d, time.Now().UnixNano()), jb, 0o644)
+			}
+		}
 	}
 	b, _ := json.Marshal(sc)
 	run.Case(verdict != "inconclusive" && (feats["adjacent-requests"] || feats["ack-interleaved-with-requests"]), evid.Hash(b), append(cls, "verdict:"+verdict)...)
